@@ -198,6 +198,20 @@ TINY_GS = dict(name="c01_goalstate", template="C04/tiny.c", mode="plain", entry=
                functions=["GoalState::distanceGoal", "GoalState::sampleGoal"], canaries=[dict(name="goal_overwritten_by_the_argument", where="body:gs_sampleGoal", rx=r"SI_COPY\(st, state_\)", repl="SI_COPY(state_, st)")])
 UNITS.append(TINY_PL)
 
+SCIF = "src/ompl/base/objectives/src/StateCostIntegralObjective.cpp"
+SCI_RULES = [
+    (r"Cost totalCost = this->identityCost\(\);", "double totalCost = IDENT();", 0), (r"int nd = si_->getStateSpace\(\)->validSegmentCount\(s1, s2\);", "int nd = ND;", 0),
+    (r"State \*test1 = si_->cloneState\(s1\);", "SRef test1 = CLONE(s1);", 0), (r"State \*test2 = si_->allocState\(\);", "SRef test2 = ALLOC();", 0),
+    (r"si_->getStateSpace\(\)->interpolate\(s1, s2, \(double\)j / \(double\)nd, test2\);", "INTERP(j, nd, test2);", 0),
+    (r"Cost\(totalCost\.value\(\) \+\s*this->trapezoid\(((?:[^()]|\([^()]*\))*)\)\.value\(\)\)", r"ADD(totalCost, TRAP(\1))", 0),
+    (r"this->trapezoid\(", "TRAP(", 0), (r"this->stateCost\(", "SC(", 0), (r"\bCost (\w+) =", r"double \1 =", 0), (r"si_->distance\(", "DISTS(", 0), (r"std::swap\(test1, test2\);", "SWAPS(test1, test2);", 0), (r"si_->freeState\(", "FREE(", 0),
+]
+UNITS.append(dict(name="c04_statecostintegral_motionCost", template="C04/sci_motioncost.c", mode="plain", entry="h_sci_motionCost", flags=["--bounds-check", "--pointer-check", "--signed-overflow-check"], unwind=9, level="bounded", bound="<= 4 segments",
+                  backend="cadical", timeout=300, functions=["StateCostIntegralObjective::motionCost"],
+                  sources=[dict(name="sci_motionCost", file=SCIF, sig=r"ompl::base::Cost ompl::base::StateCostIntegralObjective::motionCost\(const State \*s1, const State \*s2\) const", rules=SCI_RULES, loops={"allow_uncontracted": True})],
+                  canaries=[dict(name="last_trapezoid_from_the_start_state", where="body:sci_motionCost", rx=r"DISTS\(test1, s2\)", repl="DISTS(s1, s2)"),
+                            dict(name="previous_cost_not_advanced", where="body:sci_motionCost", rx=r"prevStateCost = nextStateCost;", repl=";")]))
+
 # BIT*'s incumbent update
 BITF = "src/ompl/geometric/planners/informedtrees/src/BITstar.cpp"
 BG_RULES = [
